@@ -9,6 +9,14 @@ MEDIA = {"appxml": ["application/xml", "Application/XML-DTD"], "appxmlplus": ["a
 BOMS = {"utf-8": b"\xef\xbb\xbf", "utf_16_le": b"\xff\xfe", "utf_16_be": b"\xfe\xff"}
 
 
+# the same declarations in other spellings the syntaxes allow (quotes, letter case of names, white space, further attributes)
+XMLDECL = ['<?xml version="1.0" encoding="%s"?>', '<?xml version="1.0" encoding="%s" standalone="yes"?>', "<?xml version='1.0' encoding='%s'?>",
+           '<?xml version="1.0"  encoding = "%s"  standalone="no" ?>']
+METADECL = ['<meta http-equiv="Content-Type" content="text/html; charset=%s">', "<META HTTP-EQUIV='content-type' CONTENT='text/html;charset=%s'>",
+            '<meta content="text/html; charset=%s" http-equiv="Content-Type" />', '<meta name="x" content="y"><meta http-equiv="Content-Type" content="text/html; charset=%s">']
+HTTPCS = ["; charset=%s", ";charset=%s", '; charset="%s"', "; CHARSET=%s", "; charset=%s; q=1"]
+
+
 class Resp:
     def __init__(self, ct):
         self.m = email.message.Message()
@@ -22,19 +30,19 @@ class Resp:
         return b""
 
 
-def document(xml, meta, as_bytes):
+def document(xml, meta, as_bytes, k=0):
     """a byte string; a text document is the same bytes read as latin-1 (one character per byte, as encutils' sniffers expect)"""
     head = b""
     if xml.startswith("bomdecl:"):
         _, b, e = xml.split(":")
-        head = BOMS[b] + ('<?xml version="1.0" encoding="%s"?>' % e).encode("ascii")
+        head = BOMS[b] + (XMLDECL[k % len(XMLDECL)] % e).encode("ascii")
     elif xml.startswith("bom:"):
         head = BOMS[xml[4:]]
     elif xml.startswith("decl:"):
-        head = ('<?xml version="1.0" encoding="%s" standalone="yes"?>' % xml[5:]).encode("ascii")
+        head = (XMLDECL[(k + 1) % len(XMLDECL)] % xml[5:]).encode("ascii")
     body = b"<html><head>"
     if meta != "none":
-        body += ('<meta http-equiv="Content-Type" content="text/html; charset=%s">' % meta).encode("ascii")
+        body += (METADECL[k % len(METADECL)] % meta).encode("ascii")
     body += b"<title>t</title></head><body>x</body></html>"
     data = head + body
     return data if as_bytes else data.decode("latin-1")
@@ -52,8 +60,8 @@ def run_row(item):
         mts = MEDIA[r["mt"]]
         ct = mts[rid % len(mts)]
         if r["http"] != "none":
-            ct += "; charset=%s" % r["http"]
-        doc = document(r["xml"], r["meta"], r["doc"] == "bytes")
+            ct += HTTPCS[(rid // 2) % len(HTTPCS)] % (r["http"].upper() if rid % 3 == 0 else r["http"])
+        doc = document(r["xml"], r["meta"], r["doc"] == "bytes", rid)
         try:
             e = encutils.getEncodingInfo(Resp(ct), doc)
             o = {"out": "ok", "encoding": none(e.encoding), "mismatch": "true" if e.mismatch else "false",
@@ -72,7 +80,7 @@ def run_row(item):
             o = {"out": "EXC:" + type(ex).__name__, "encoding": "", "mismatch": "", "http": "", "xml": "", "meta": "", "stable": True}
         a["content_type"] = ct
     elif r["kind"] == "sniff":
-        doc = document(r["xml"], "none", True)
+        doc = document(r["xml"], "none", True, rid)
         if r["short"]:
             doc = doc[:2] if r["xml"] == "none" else doc   # a document shorter than 4 units
         try:
